@@ -391,16 +391,22 @@ def rule_behaviour(ctx: Ctx):
         ok = w == {(): Fraction(1)}
         ctx.check(ok, "BEH-1", dis, rets[0], "exploration mixture weights sum to 1", "", f"mixture weights `{norm(rets[0].value)}` do not sum to 1")
         # weight of the uniform component is the exploration rate, as in the sampler
-        ok = isinstance(l, ast.BinOp) and ast.unparse(l.right) == "rand_choose" and "rand" in ast.unparse(l.left)
+        rd = Snips(dis).find(f"rand_dist = DictDistribution.uniform({dis.positional_params[0]}.keys())")
+        ok = isinstance(l, ast.BinOp) and ast.unparse(l.right) == dis.positional_params[1] and bool(rd) and ast.unparse(l.left) == rd[0][1]["rand_dist"]
         ctx.check(ok, "BEH-1", dis, rets[0], "uniform component weighted by rand_choose", "", "exploration weight is attached to the wrong component")
     else:
         ctx.unknown("BEH-1", dis, dis.node, "exploration mixture", "mixture expression not found")
-    ssrc, dsrc = ast.unparse(sam.node), ast.unparse(dis.node)
-    ok = "rng.random() < rand_choose" in ssrc and "rng.choice(aa)" in ssrc
+    SS, SD = Snips(sam), Snips(dis)
+    av_s, rc_s, st_s, rng_s = sam.positional_params[:4]
+    av_d, rc_d, st_d = dis.positional_params[:3]
+    unz = SS.find(f"aa, qs = zip(*{av_s}.items())")
+    e = unz[0][1] if unz else {}
+    ok = bool(unz) and SS.has(f"{rng_s}.random() < {rc_s}") and SS.has(f"a = {rng_s}.choice(aa)", {"aa": e["aa"]})
     ctx.check(ok if ok else None, "BEH-1", sam, sam.node, "sampler explores uniformly with probability rand_choose", "", "idiom not recognised")
-    ok = "math.exp(qi / softmax_temp)" in ssrc and "q / softmax_temp" in dsrc
+    ok = bool(unz) and SS.has(f"[math.exp(qi / {st_s}) for qi in qs]", {"qs": e["qs"]}) and SD.has(f"{{a: q / {st_d} for a, q in {av_d}.items()}}")
     ctx.check(ok if ok else None, "BEH-1", sam, sam.node, "sampler and distribution use the same Boltzmann exponent q/temperature", "", "idiom not recognised")
-    ok = "== maxq" in ssrc and "== maxq" in dsrc
+    ok = bool(unz) and SS.solve(["maxq = max(qs)", f"[a for a in aa if {av_s}[a] == maxq]"], {"qs": e["qs"], "aa": e["aa"]}) is not None \
+        and SD.solve([f"maxq = max({av_d}.values())", f"[a for a, q in {av_d}.items() if q == maxq]"]) is not None
     ctx.check(ok if ok else None, "BEH-1", sam, sam.node, "zero temperature: uniform over exact maximisers in both", "", "idiom not recognised")
 
 
